@@ -1,3 +1,5 @@
+import FrappyProofs.Lemmas.Discovery
 import FrappyProofs.Lemmas.Logging
 import FrappyProofs.Lemmas.Rotate
+import FrappyProofs.Props.C19
 import FrappyProofs.Props.C20
